@@ -16,7 +16,7 @@ def _prepare():
     if "gc-eager" in what:
         import gc
 
-        gc.set_threshold(1, 1, 1)
+        gc.set_threshold(20, 3, 3)
     if "imports-reversed" in what:
         # every submodule of the library imported on its own, last name first, before anything else touches the package
         import importlib
